@@ -43,8 +43,12 @@ def conforming(tier, ftypes=(".c", ".h"), cap=None):
     for ftype in ftypes:
         hs = histories(ftype, tier)
         if cap and len(hs) > cap:
-            step = len(hs) / cap
-            hs = [hs[int(i * step)] for i in range(cap)]
+            # the shallowest histories (every first block of the alphabet) are always kept, the rest is sampled evenly
+            head = [h for h in hs if len(h) <= 1]
+            rest = [h for h in hs if len(h) > 1]
+            k = max(1, cap - len(head))
+            step = len(rest) / k
+            hs = head + [rest[int(i * step)] for i in range(k)]
         for ids in hs:
             fname = "test" + ftype
             rp = norm.replay(ftype, ids, b, fname, with_preamble=False)
